@@ -718,6 +718,13 @@ func c10Check(tier string) int {
 		pool.ChownNobody(sbroot)
 		defer os.RemoveAll(sbroot)
 		out := pool.RunWorker([]string{"c10", tier, strconv.Itoa(k)}, nil, budget(tier), true, "VERIF_SANDBOX="+sbroot)
+		if out.TimedOut && out.ExitCode != 3 {
+			// the wall-clock budget ran out (a loaded machine, a slower tree): not a verdict about the property
+			run.Add("workers_out_of_budget", 1)
+			run.Set("exhaustive", false)
+			run.Set("cap", "a worker exceeded the wall-clock budget of this tier; its share of the space was not completed")
+			return
+		}
 		if out.Crashed() {
 			run.Report(ev.Violation{Key: "worker-crash " + progs[k].Name, Class: "process-crash", What: fmt.Sprintf("worker died (exit=%d signal=%s timeout=%v) on program %s: %s", out.ExitCode, out.Signal, out.TimedOut, progs[k].Name, firstLines(string(out.Stderr), 8)), Case: map[string]any{"program": progs[k]}})
 			return
